@@ -9,7 +9,7 @@ EXPLANATION = ("In gix-odb's dynamic store (load_index.rs): every ArcSwap store 
                "`&MutexGuard` witness and consolidate_with_disk_state locks `self.write` before calling them; loading an index into its slot is on the "
                "not-newer edge of the `generation > index.generation` re-check. Slot assignment in consolidate_with_disk_state: no try_set_index_slot call without the `not contained` edge of a membership test on the slots kept in this pass; "
                "a slot given a new file is excluded from, or purged out of, the to-be-cleared list; an assignment needs_generation_change = true is control-dependent on that list being non-empty. "
-               "Reader side: markers handed to load_pack / load_one_index are read from the snapshot inside the retry loop. Linearizability under all interleavings is not decided.")
+               "Reader side: markers handed to load_pack / load_one_index are read from the snapshot inside the retry loop. The slot map is sized from a count that sees every index file (multi-pack-index hash None). Linearizability under all interleavings is not decided.")
 FILE = "gix-odb/src/store_impls/dynamic/load_index.rs"
 
 
